@@ -288,6 +288,11 @@ def _copy_net(block_out, net, temp_wv_net, mem_map):
 
     new_net = LogicNet(net.op, new_param, args=new_args, dests=new_dests)
     block_out.add_net(new_net)
+    # a memory keeps its own record of its ports (path, timing and area analysis read it)
+    if net.op == 'm':
+        new_param[1].readport_nets.append(new_net)
+    elif net.op == '@':
+        new_param[1].writeport_nets.append(new_net)
 
 
 def _get_new_block_mem_instance(op_param, mem_map, block_out):
